@@ -633,6 +633,35 @@ def marker_text_in_numeric_column(s, data):
         return False
 
 
+def finding_keys(s, data):
+    """every recorded finding the input carries by itself (whatever else is wrong with it): inputs that carry one which still
+    reproduces on the unchanged tree are poor witnesses of a *new* failure and are tried last by the search"""
+    keys = set()
+    try:
+        fs = s["fields"]
+        texts = out_texts(s, data)
+        if len(fs) == 1 and "---" in texts[0]:
+            keys.add("C16:read_scsv:single-column-yaml-fence")
+        if dash_fence_rows(s["delimiter"], zip(*texts)):
+            keys.add("C16:read_scsv:dash-delimited-empty-row-is-fence")
+        if yaml_special(s["delimiter"]) or yaml_special(s["missing"]) or any(
+                yaml_special(x) for f in fs for x in (f.get("name"), f.get("fill")) if isinstance(x, str)):
+            keys.add("C16:write_scsv_header:yaml-special-character")
+        if not namedtuple_ok([f["name"] for f in fs]):
+            keys.add("C16:read_scsv:namedtuple-rejects-identifier")
+        for f, col in zip(fs, data):
+            t = f.get("type", "string")
+            if t != "string" and any(str(d) == s["missing"] for d in col):
+                keys.add("C16:read_scsv:number-text-equals-missing")
+            if t == "string" and f.get("fill") == "NaN" and any(d == "NaN" for d in col):
+                keys.add("C16:_parse_scsv_cell:string-fill-NaN")
+        if marker_text_in_numeric_column(s, data):
+            keys.add("C16:save_scsv:marker-text-in-numeric-column")
+    except Exception:  # noqa: BLE001
+        pass
+    return keys
+
+
 def classify(s, data, loaded):
     """which hypothesis of C16_roundtrip fails on a case the property statement covers"""
     if len(s["fields"]) == 1 and "---" in out_texts(s, data)[0]:
@@ -2088,6 +2117,11 @@ def _run(chk, ok, br, tmp):
     # ---- something broke: search for a failing input with the property oracle
     found = []
     pool = [c for c, _ in new] + [c for c, _ in bad if c.get("kind") in ("rt", "file")] + [c for c in cases if c["kind"] in ("rt", "file")]
+    # inputs that carry a recorded finding which still reproduces on this tree fail for that reason as well: they are tried last
+    global SHRINK_AVOID
+    SHRINK_AVOID = set(reproducing)
+    clean = [c for c in pool if c["kind"] == "file" or not (finding_keys(c["schema"], c["data"]) & reproducing)]
+    pool = clean + [c for c in pool if not any(c is x for x in clean)]
     seen = set()
     for c in pool:
         if c["kind"] == "file":
@@ -2142,16 +2176,21 @@ def _run(chk, ok, br, tmp):
                    no_input=True)
 
 
+SHRINK_AVOID = set()      # recorded findings that reproduce on this tree: reductions that carry one are not taken
+
+
 def shrink(impl, c):
     """fewer rows / fewer columns while the oracle still fails"""
     s, data, fault = c["schema"], c["data"], c.get("fault")
     best = c
+    if finding_keys(s, data) & SHRINK_AVOID:
+        return best
     if fault in DOCUMENTED_FAULTS or not data or not isinstance(s.get("fields"), list):
         return best
     try:                                        # one row, all columns (failures that need the whole line)
         for i in range(len(data[0]) if len(data[0]) > 1 else 0):
             d1 = [[col[i]] for col in data]
-            if oracle(impl, s, d1):
+            if oracle(impl, s, d1) and not (finding_keys(s, d1) & SHRINK_AVOID):
                 best = {"schema": s, "data": d1, "fault": None, "kind": "rt"}
                 break
     except Exception:  # noqa: BLE001
@@ -2161,7 +2200,7 @@ def shrink(impl, c):
             s1 = dict(s, fields=[s["fields"][j]])
             d1 = [[data[j][i]]]
             try:
-                if oracle(impl, s1, d1):
+                if oracle(impl, s1, d1) and not (finding_keys(s1, d1) & SHRINK_AVOID):
                     return {"schema": s1, "data": d1, "fault": None, "kind": "rt"}
             except Exception:  # noqa: BLE001
                 pass
